@@ -67,6 +67,8 @@ def frame_bytes(item, world):
             payload = bytes(world.rng.getrandbits(8) for _ in range(n))
     else:
         payload = bytes(item.get('pl', []))
+    if item.get('z'):
+        payload = world.server_deflate(payload)
     announce = None
     if item.get('announce') == 'huge63':
         announce = 1 << 63
